@@ -124,18 +124,38 @@ def check_simulator(env, label, circ, maxp):
                            note="amplitude = perm(U_full[rows(out),cols(in)]) / sqrt(prod factorials), heralds inserted, vacuum on loss modes; unit vector when lossless")
     if m == 0:
         return
+    # input and output lists in which a state occurs more than once, in an order of the caller's choosing: the array has one row per listed input and one
+    # column per listed output, in list order (the dictionary view cannot tell the repeats apart; only the array is compared here)
+    k_ = 1 if maxp >= 1 else 0
+    basis_ = fock.fock(m, k_)
+    if len(basis_) >= 2:
+        ins_rep = [basis_[0], basis_[-1], basis_[0]]
+        outs_rep = [basis_[-1], basis_[0], basis_[-1], basis_[len(basis_) // 2], basis_[0]]
+        res = sim.simulate([lw.State(x) for x in ins_rep], [lw.State(x) for x in outs_rep])
+        ok_shape = tuple(res.array.shape) == (len(ins_rep), len(outs_rep))
+        env.check_true(f"{name}.repeated-states-shape[{label}]", ok_shape, note="one row per listed input, one column per listed output, repeats included", model=dict(circuit=label))
+        if ok_shape:
+            env.check_all_zero(f"{name}.repeated-states[{label}]",
+                               [((i, j, tuple(si), tuple(so)), res.array[i, j] - fock.heralded_amp(env, circ, U, si, so, nl)) for i, si in enumerate(ins_rep) for j, so in enumerate(outs_rep)],
+                               note="array[i, j] is the amplitude from the i-th listed input to the j-th listed output also when a state is listed more than once")
     # rejected inputs
     bad = [("wrong length", lambda: sim.simulate(lw.State([1] * (m + 1))), lw.emulator.ModeMismatchError if hasattr(lw.emulator, "ModeMismatchError") else Exception),
            ("negative", lambda: sim.simulate(lw.State([-1] + [0] * (m - 1))), ValueError),
            ("non-integer", lambda: sim.simulate(lw.State([0.5] + [0] * (m - 1))), TypeError),
            ("photon mismatch", lambda: sim.simulate([lw.State([1] + [0] * (m - 1))], [lw.State([2] + [0] * (m - 1))]), Exception),
-           ("mixed inputs", lambda: sim.simulate([lw.State([1] + [0] * (m - 1)), lw.State([2] + [0] * (m - 1))]), Exception)]
+           ("mixed inputs", lambda: sim.simulate([lw.State([1] + [0] * (m - 1)), lw.State([2] + [0] * (m - 1))]), Exception),
+           # the same refusals for an OUTPUT, given inside a list and as a bare State
+           ("output too long (list)", lambda: sim.simulate(lw.State([1] + [0] * (m - 1)), [lw.State([1] + [0] * m)]), Exception),
+           ("output too long (bare State, empty tail)", lambda: sim.simulate(lw.State([1] + [0] * (m - 1)), lw.State([1] + [0] * m)), Exception),
+           ("output too short (bare State)", lambda: sim.simulate(lw.State([1] + [0] * (m - 1)), lw.State([1] + [0] * (m - 2))) if m >= 2 else (_ for _ in ()).throw(ValueError()), Exception),
+           ("output with bool occupations (bare State)", lambda: sim.simulate(lw.State([1] + [0] * (m - 1)), lw.State([True] + [False] * (m - 1))), Exception),
+           ("output negative (bare State)", lambda: sim.simulate(lw.State([1] + [0] * (m - 1)), lw.State([2, -1] + [0] * (m - 2))) if m >= 2 else (_ for _ in ()).throw(ValueError()), Exception)]
     for what, f, exc in bad:
         try:
             f()
             ok = False
         except Exception as e:  # noqa: BLE001
-            ok = isinstance(e, exc) and type(e).__name__ in ("ModeMismatchError", "ValueError", "TypeError", "PhotonNumberError")
+            ok = isinstance(e, exc) and type(e).__name__ in ("ModeMismatchError", "ValueError", "TypeError", "PhotonNumberError", "IndexError")
         env.check_true(f"{name}.rejects[{label};{what}]", ok, note="invalid input rejected, not computed", model=dict(circuit=label, input=what))
 
 
@@ -311,7 +331,10 @@ def check_analyzer_quick(env, label, circ, maxp):
         # quick sampler: conditioned on heralds, no loss of photons, renormalised
         if nl == 0 or True:
             for s in ins_:
-                for pnr, (psl, psq) in itertools.product((True, False), ((("none", None), ("rule-last", _rule_last(m)), ("fn", (lambda st: st[0] <= 1))) if m else (("none", None),))):
+                for pnr, (psl, psq) in itertools.product((True, False), ((("none", None), ("rule-last", _rule_last(m)), ("fn", (lambda st: st[0] <= 1)),
+                                                                                         # predicates written for State objects, as documented: comparison with States, slicing to a State
+                                                                                         ("fn-state", (lambda st: st not in [lw.State([1] + [0] * (m - 1)), lw.State([0] * (m - 1) + [2])])),
+                                                                                         ("fn-state-slice", (lambda st: st[:1].n_photons <= 1))) if m else (("none", None),))):
                     ref = spec_distribution(env, circ, U, s)
                     tot_in = sum(s) + sum(circ.heralds["input"].values())
                     cond = {}
@@ -564,3 +587,44 @@ def unit_typed_states(tier="quick", seed=0):
         o["model"] = dict(case=fails[0][0], observed=fails[0][1], n_failing=len(fails))
         o["replayed"] = f"{len(fails)} of {n} cases fail; first {fails[0][0]}: {fails[0][1]}"
     return dict(status="ok", obligations=[o], summary=f"typed states: {n} cases")
+
+
+def unit_backend_names(tier="quick", seed=0):
+    """C04, native: every way of naming a backend ('permanent' / 'slos' in any letter case, with stray blanks, as a Backend object, through the constructor or the
+    setter) is either refused or gives the distribution of the lower-case name - never something else (e.g. an empty calculation booked to the vacuum)."""
+    import lightworks as lw
+    from lightworks import emulator
+    fails, n = [], 0
+    c = lw.Circuit(3)
+    c.bs(0, reflectivity=0.3)
+    c.bs(1, reflectivity=0.6)
+    c.loss(2, 0.25)
+    inp = lw.State([1, 1, 0])
+    ref = {tuple(k.s): v for k, v in emulator.Sampler(c, inp, backend="permanent").probability_distribution.items()}
+    names = ["permanent", "slos", "SLOS", "Slos", "Permanent", "PERMANENT", " slos", "slos ", "sLoS", "clifford", "", None, 0]
+    for nm in names:
+        for how in ("constructor", "setter", "Backend object"):
+            n += 1
+            try:
+                if how == "constructor":
+                    s = emulator.Sampler(c, inp, backend=nm)
+                elif how == "setter":
+                    s = emulator.Sampler(c, inp)
+                    s.backend = nm
+                else:
+                    from lightworks.emulator.backend import Backend
+                    s = emulator.Sampler(c, inp, backend=Backend(nm))
+                got = {tuple(k.s): v for k, v in s.probability_distribution.items()}
+            except Exception:  # noqa: BLE001
+                continue            # refused
+            if nm is None and how != "Backend object":
+                pass                # None selects the default backend
+            if set(got) != set(ref) or any(abs(got[k] - ref[k]) > 1e-9 for k in ref):
+                fails.append((dict(backend=repr(nm), via=how), f"accepted, but the distribution differs from the reference backend's ({len(got)} outcomes, vacuum {got.get((0, 0, 0))}; expected {len(ref)} outcomes)"))
+    o = dict(name="lightworks/emulator/backend/backend.py:Backend#bnd.backend-names", kind="bnd", cases=n, result="bounded-fail" if fails else "bounded-pass",
+             backend="native floats", ms=0, note="backend named in any letter case / with blanks / as object, via constructor or setter: refused, or the distribution of the canonical backend")
+    if fails:
+        o["failing_cases"] = [str(f[0]) for f in fails]
+        o["model"] = dict(case=fails[0][0], observed=fails[0][1], n_failing=len(fails))
+        o["replayed"] = f"{len(fails)} of {n} cases fail; first {fails[0][0]}: {fails[0][1]}"
+    return dict(status="ok", obligations=[o], summary=f"backend names: {n} cases")
